@@ -29,6 +29,10 @@ CHECKS = [
           "Runtime monitor over multisets of single signatures: validity of each member is established independently (public verify + blst), then |valid index union| >= k => aggregate Ok and result verifies, and Ok(S) => Ok(S+X) for every extra material X (duplicates, same-sigma relabelled copies, corrupted, other-message, other-registration, unregistered slot), all orders for |S|<=5. Held on the multisets explored.",
           "trusts blst, the public SingleSignature::verify as definition of 'valid'",
           "runtime monitor: metamorphic (monotonicity / order independence) + completeness oracle over generated multisets", "DESIGN.md §2 C02"),
+    check("C03", "mon-chain", "exploration",
+          "Runtime monitor: the provider's answer table (hash -> certificate served, lies included) is judged by mithril-common's verify_certificate_chain through a harness retriever and by mithril-client's verify_chain (feature unstable: cold, warm and poisoned-by-earlier-run caches), and by an INDEPENDENT reference validator that walks previous_hash through the same table requiring exactly the conjuncts of the statement (bounded walk => loops detected); accept => reference accepts, honest chains accepted. Tamperings: every single-field edit with/without hash recomputation, adversary with its own keys and genesis key (internally consistent re-signing), links re-targeted to same / previous / NEXT / older epochs, drop, duplicate, loops, wrong certificate for a hash, and 17 fully-signed single-conjunct breaks.",
+          "certificate hash / message digest of the working tree used as definitions (C04 judges them); multi-signature validity from the STM verifier (C01 judges it); a chain whose genesis certificate carries altered (unsigned) key/parameter fields satisfies the statement literally and is counted, not reported",
+          "runtime monitor: reference validator over the provider answer table (differential) incl. cache histories", "DESIGN.md §2 C03"),
     check("C06", "mon-stm", "exploration",
           "Runtime monitor: for each generated registration set the aggregate key bytes, total stake and every party's slot are observed through mithril-stm directly, through mithril-common's SignerBuilder over KES-certified fixture signers, and after passing signers and key through their JSON/hex wire forms; observations must be equal across all registration orders (all n! for n<=6, sampled above) and paths, and differ for neighbouring sets. Held on the sets explored.",
           "Blake2b collision resistance; equal-prefix keys are drawn from a pool of a few hundred keys (pairs sharing 2 leading bytes, not more)",
@@ -41,6 +45,14 @@ CHECKS = [
           "Runtime monitor with an offline exact checker: the real is_lottery_won (eligibility.rs of the working tree compiled in by path inclusion) is evaluated on ~20k (quick) to millions (thorough) of cases concentrated around the threshold; every decision is logged and judged by an independent mpmath (600-bit) evaluation of p < 1-(1-phi)^(stake/total) outside a 2^-40 band; determinism, monotonicity chains, stake 0, phi 1 and signer/verifier agreement per index are asserted online.",
           "mpmath as reference; 2^-40 band around equality is not judged; only the num-integer backend (the one compiled in this workspace) is observed",
           "runtime monitor: decision log + offline exact-arithmetic checker (differential), online monotonicity/determinism assertions", "DESIGN.md §2 C08"),
+    check("C09", "mon-merkle", "exploration",
+          "Runtime monitor: proofs of the STM registration tree (through the cfg-guarded verif_export), MKTree/MKProof, nested MKMap/MKMapProof and MkSetProof are generated and mutated; the committed root is recomputed by reference trees written in the harness (heap tree with H([0]) padding, own MMR, H(key||root) map leaves), and every proof that verifies is judged semantically: each (position, leaf) / item it claims must be committed. Exhaustive for n = 1..12 (quick) / 1..14 (thorough): every non-empty index subset and every single mutation; pairs of mutations and larger trees sampled. Miri run of the pure-Rust parts documented in DESIGN §7.",
+          "Blake2 collision resistance; five encoding-level known findings (no leaf/node domain separation in MKTree/MKMap) are listed in known_findings.json and printed as KNOWN-FINDING",
+          "runtime monitor: reference trees + semantic soundness oracle over exhaustively enumerated small proofs and mutations", "DESIGN.md §2 C09"),
+    check("C11", "mon-proof", "exploration",
+          "Runtime monitor: honest responses are produced by the REAL prover services (MithrilProverService, legacy prover) over the aggregator's real sqlite store filled by the real importer from a harness ground-truth chain, signed messages by the real signable builders; 105 tamper classes of proof responses (both formats) and 29 of stake distributions go through the client flow (deserialize, verify, MessageBuilder::compute_*, match_message); accept => every reported item is in the chain at or below the beacon with exactly the reported fields, under one root, and the (root, latest block, offset) triple is the signed one; stake distribution accepted => served map == certified map.",
+          "Merkle layer accessors trusted here (C09 judges that layer); legacy beacons restricted to range ends as the signing config produces them; harmless alterations (certified item moved to non_certified, duplicates, unsigned fields) are counted, not reported",
+          "runtime monitor: ground-truth-by-construction oracle over tampered prover responses", "DESIGN.md §2 C11"),
     check("C12", "mon-digest", "exploration",
           "Runtime monitor: the real CardanoImmutableDigester / CardanoDatabaseSignableBuilder run on harness-written databases; metamorphic equality (creation order, extra files, files beyond the beacon, cache histories cold/warm/partial/longer/shorter/shared JSON cache) plus a reference root (own sha256 per file + own MMR/Blake2s tree, cross-checked against the repo tree); without cache every single-byte change / removal of a covered file must change the root or error.",
           "sha256/blake2 as primitives; excluded by stated assumption: a second directory named immutable, symlinks, files modified while cached, concurrent use of one cache",
@@ -61,6 +73,10 @@ CHECKS = [
           "Runtime monitor: the real SignedEntityConfig::time_point_to_signed_entity / compute_block_number_to_be_signed evaluated on an exhaustive grid (tip 0..700 x 14 security parameters x 15 steps, successive-tip pairs) and millions of seeded 64-bit samples; i128 oracle from the statement: upper bound tip-security floored at 0, monotone in the tip, whole steps, block-range boundary for the transaction entity, purity/agreement across independently built configs and all entity types, epoch 0.",
           "the direction of rounding the step to the range length is not fixed by the statement: the oracle accepts either as long as one candidate explains every selection of a configuration",
           "runtime monitor: arithmetic reference oracle over an exhaustive grid + random samples", "DESIGN.md §2 C17"),
+    check("C18", "mon-pool", "exploration",
+          "Runtime monitor over the real ResourcePool with resources tagged by the generation that created them: one atomic global sequence counter stamps acquire call/return, give-back (explicit item / drop / raw), refresh begin/complete and count samples; a happens-before checker asserts (S1) an acquire called after refresh_complete(g) returns a tag >= g, (S2) no resource held twice, (S3) count <= size always, (S4, bounded) blocked callers wake or time out. Levels: exhaustive single-threaded histories (10-operation alphabet up to length 6, pool sizes 1-3), 6.4k random histories, 336 multi-threaded stress runs (2-12 threads, with and without seeded delays at the four cfg-guarded hook points between the pool's critical sections; tens of thousands of distinct refresh-window event orders), wake-up scenarios; thorough adds Miri seeds (distinct replayable interleavings, UB/data-race checking) and a ThreadSanitizer run on an FFI-free build of the same source file.",
+          "the prover-level race (compute_cache vs proof requests) is represented by a refresher thread performing exactly the prover's call sequence; S4 is wall-clock based and can only make a run inconclusive",
+          "runtime monitor: sequence-stamped event log + happens-before checker under stress, seeded delay hooks, Miri and TSan", "DESIGN.md §2 C18"),
 ]
 
 ALL = [f"C{i:02d}" for i in range(1, 21)]
@@ -88,6 +104,10 @@ def main():
              "kind_free_text": "Rust monitors linking mithril-stm of the working tree; reference oracles in refagg.rs/reflot.rs"},
             {"name": "mon-agg", "path": "harness/mon-agg", "serves_properties": ["C14", "C15", "C16"],
              "kind_free_text": "the real aggregator (DependenciesBuilder wiring, file-backed sqlite) driven by seeded histories in child processes; history / store checkers"},
+            {"name": "mon-chain", "path": "harness/mon-chain", "serves_properties": ["C03"], "kind_free_text": "certificate chains + adversarial provider tables against common and client verifiers; reference validator"},
+            {"name": "mon-merkle", "path": "harness/mon-merkle", "serves_properties": ["C09"], "kind_free_text": "exhaustive small-tree proof enumeration and mutation against reference trees"},
+            {"name": "mon-proof", "path": "harness/mon-proof", "serves_properties": ["C11"], "kind_free_text": "real prover services over sqlite + client verification flow on tampered responses"},
+            {"name": "mon-pool", "path": "harness/mon-pool", "serves_properties": ["C18"], "kind_free_text": "resource pool stress with event log + happens-before checker; l3/ = FFI-free workspace for Miri / TSan"},
             {"name": "mon-reg", "path": "harness/mon-reg", "serves_properties": ["C07"], "kind_free_text": "registration submissions with harness-made keys against the three real registration entry points"},
             {"name": "mon-beacon", "path": "harness/mon-beacon", "serves_properties": ["C17"], "kind_free_text": "grid + random evaluation of the beacon selection against an i128 oracle"},
             {"name": "mon-digest", "path": "harness/mon-digest", "serves_properties": ["C12"], "kind_free_text": "real immutable digester on harness-written databases; metamorphic + reference root"},
